@@ -225,6 +225,8 @@ func checkC07(c *Ctx) {
 	r.Rule("R2.inverse", "decode(encode(v)) = v for every accepted v (no silent truncation, scale exact)")
 	r.Rule("R4.size", "registry size = encoded length = decoder's exact length test")
 	r.Rule("R5.stream", "decodeDataPayloadToMACCommands: checks remaining >= size+1 before slicing, advances by 1+size, unknown CID has size 0")
+	r.Rule("R6.registry-writers", "the only post-init writer of macPayloadRegistry is RegisterProprietaryMACCommand: under Lock, keyed by the caller's direction and CID, after rejecting CID < 128")
+	r.Rule("R8.no-input-write", "no decoder writes through its input slice (commands of one stream share the buffer: a write would corrupt the following command)")
 	r.Rule("R7.port0", "marshalPayload refuses a *MACCommand unless FPort is set and 0")
 	for _, s := range macSpecs {
 		res := runCodec(c, s)
@@ -241,6 +243,8 @@ func checkC07(c *Ctx) {
 	}
 	registryRule(c, "R4.size")
 	c07Stream(c)
+	ruleRegistryWriters(c, "R6.registry-writers")
+	ruleNoInputWrite(c, "R8.no-input-write", nil)
 }
 
 // c07Stream: structural rule on decodeDataPayloadToMACCommands and marshalPayload (typed AST).
